@@ -32,7 +32,9 @@ package main
 //
 // Deviations from DESIGN: length <= 4 / <= 5 instead of <= 6 / <= 7 (90 M
 // strings x 12 parsers does not fit the budget; the long digit runs carry the
-// beyond-64-bit part of the quantifier).  Percentages are compared in the
+// beyond-64-bit part of the quantifier).  The options.Parse / Apply entry
+// points are enumerated up to length 4 in both tiers (length 5 only for the
+// parsers restic implements itself); templates always run every parser.  Percentages are compared in the
 // float64 domain (nearest float64 of the decimal), time.Duration option values
 // with fractions may differ from the exact rational by < 1 ns per component
 // (documented float arithmetic of time.ParseDuration).
@@ -41,6 +43,7 @@ import (
 	"fmt"
 	"math"
 	"math/big"
+	"runtime/debug"
 	"strings"
 	"testing"
 	"time"
@@ -490,7 +493,12 @@ func (c *verifC49Ctx) outcome(o string) {
 }
 
 func (c *verifC49Ctx) report(kind, fn, in string, format string, a ...any) {
-	c.r.Violationf(c.ck, fmt.Sprintf("C49|%s|%s|shape=%s", kind, fn, verifC49Shape(in)), map[string]any{"function": fn, "input": in}, "%s(%q): %s", fn, in, fmt.Sprintf(format, a...))
+	shape := "shape=" + verifC49Shape(in)
+	if kind == "panic" && strings.Contains(shape, "N{19+}") {
+		// one key per parser for "a number of 19 or more digits makes it panic"; the exact input is in the detail
+		shape = "number-of-19-or-more-digits"
+	}
+	c.r.Violationf(c.ck, fmt.Sprintf("C49|%s|%s|%s", kind, fn, shape), map[string]any{"function": fn, "input": in}, "%s(%q): %s", fn, in, fmt.Sprintf(format, a...))
 }
 
 // judge applies the two-sided oracle. gotEq reports whether the accepted value equals the reference value.
@@ -535,7 +543,13 @@ type verifC49Opts struct {
 
 // ---------- the per-string checks ----------
 
-func verifC49All(c *verifC49Ctx, s string) {
+// verifC49OptsMaxLen: enumerated strings longer than this skip the options.Parse/Apply entry points
+// (they mostly exercise strconv / time.ParseDuration); templates always run everything.
+const verifC49OptsMaxLen = 4
+
+func verifC49All(c *verifC49Ctx, s string) { verifC49Run(c, s, true) }
+
+func verifC49Run(c *verifC49Ctx, s string, withOptions bool) {
 	// data.ParseDuration + String round trip
 	{
 		var d data.Duration
@@ -583,7 +597,7 @@ func verifC49All(c *verifC49Ctx, s string) {
 		})
 	}
 	// options.Parse on the raw string
-	{
+	if withOptions {
 		var o options.Options
 		var err error
 		pn, msg := vh.NoPanic(func() { o, err = options.Parse([]string{s}) })
@@ -597,11 +611,13 @@ func verifC49All(c *verifC49Ctx, s string) {
 		})
 	}
 	// options.Parse + Apply per field type (value = s)
-	verifC49Apply(c, "i", s)
-	verifC49Apply(c, "u", s)
-	verifC49Apply(c, "b", s)
-	verifC49Apply(c, "d", s)
-	verifC49Apply(c, "s", s)
+	if withOptions {
+		verifC49Apply(c, "i", s)
+		verifC49Apply(c, "u", s)
+		verifC49Apply(c, "b", s)
+		verifC49Apply(c, "d", s)
+		verifC49Apply(c, "s", s)
+	}
 	// checkFlags
 	{
 		var err error
@@ -647,8 +663,10 @@ func verifC49All(c *verifC49Ctx, s string) {
 	verifC49Shell(c, s)
 }
 
+var verifC49ApplyNames = map[string]string{"i": "options.Apply[int]", "u": "options.Apply[uint]", "b": "options.Apply[bool]", "d": "options.Apply[time.Duration]", "s": "options.Apply[string]"}
+
 func verifC49Apply(c *verifC49Ctx, field, s string) {
-	fn := "options.Apply[" + map[string]string{"i": "int", "u": "uint", "b": "bool", "d": "time.Duration", "s": "string"}[field] + "]"
+	fn := verifC49ApplyNames[field]
 	var dst verifC49Opts
 	var err error
 	pn, msg := vh.NoPanic(func() {
@@ -699,10 +717,11 @@ func verifC49Apply(c *verifC49Ctx, field, s string) {
 }
 
 // SplitShellStrings oracle:
-//   no quote / backslash in the input  => exactly the whitespace separated fields, error iff there is none;
-//   otherwise (quirky, undocumented)   => no panic; every returned field is a non-empty substring of the
-//   input, in order; and when every quoted section is a whole argument (delimited by whitespace or the
-//   ends, non-empty, no backslashes) the result is the shell reading.
+//
+//	no quote / backslash in the input  => exactly the whitespace separated fields, error iff there is none;
+//	otherwise (quirky, undocumented)   => no panic; every returned field is a non-empty substring of the
+//	input, in order; and when every quoted section is a whole argument (delimited by whitespace or the
+//	ends, non-empty, no backslashes) the result is the shell reading.
 func verifC49Shell(c *verifC49Ctx, s string) {
 	fn := "SplitShellStrings"
 	var got []string
@@ -850,8 +869,9 @@ var verifC49Templates = []string{
 func TestVerif_C49(t *testing.T) {
 	r := vh.Start(t, "C49")
 	defer r.Finish()
+	defer debug.SetGCPercent(debug.SetGCPercent(400)) // allocation-heavy error paths; harness-only tuning
 	maxLen := vh.Pick(r, 4, 5)
-	r.Rule(fmt.Sprintf("every string of length 0..%d over the 21-symbol alphabet %q, plus %d templates x digit runs (19/20/21/40 digits and the neighbourhoods of 2^31, 2^32, 2^63, 2^64 and the unit limits) in every numeric position, through 13 parser entry points; non-trivial = the reference reads a value in range from the string or restic accepts it", maxLen, verifC49Alphabet, len(verifC49Templates)))
+	r.Rule(fmt.Sprintf("every string of length 0..%d over the 21-symbol alphabet %q, plus %d templates x digit runs (19/20/21/40 digits and the neighbourhoods of 2^31, 2^32, 2^63, 2^64 and the unit limits) in every numeric position, through 13 parser entry points (options.Parse/Apply on enumerated strings up to length 4); non-trivial = the reference reads a value in range from the string or restic accepts it", maxLen, verifC49Alphabet, len(verifC49Templates)))
 	r.Assume("reference readers (math/big) implement: restic duration `6y5m234d37h` with optional '-' per number; sizes digits+[bBkKmMgGtT] powers of 1024; counts digits|unlimited; Go base-0 integer literals and time.ParseDuration syntax for extended options; n/t | x% | size for --read-data-subset")
 	A := verifC49Alphabet
 	nA := len(A)
@@ -927,7 +947,7 @@ func TestVerif_C49(t *testing.T) {
 						buf[p] = A[x%nA]
 						x /= nA
 					}
-					verifC49All(c, string(buf[:l]))
+					verifC49Run(c, string(buf[:l]), l <= verifC49OptsMaxLen)
 				}
 				r.Trace(1)
 			}
